@@ -124,6 +124,7 @@ class Engine:
                 for pre in (0, 1):
                     cfg = "crash:%s:%d:%s" % (m, pre, tier)
                     out.append((cfg, len(self.crash_points(cfg))))
+            for m in (models + ["Big"] if tier == "quick" else models):
                 cfg = "trunc:%s:%s" % (m, tier)
                 out.append((cfg, len(self.trunc_points(cfg))))
             out.append(("race", 400 if tier == "quick" else 20_000))
@@ -570,12 +571,27 @@ class Engine:
             with util.capture_pymoca_log():
                 procs.ApiProcess(LABELS[0]).transfer_model(world.mdir, model, world.options(0, "cache"))
             size = os.path.getsize(world.cache_file)
+            with fsim.REAL_OPEN(world.cache_file, "rb") as f:
+                data = f.read()
         finally:
             core.set_clock(None)
         pts = list(range(size))
         if tier == "quick" and len(pts) > 150:
+            # always: the first bytes, and the places where the unpickler is between two frames (it reports a
+            # truncation there with another exception class than inside a frame)
+            special = set(range(0, 12)) | {size - 1}
+            try:
+                import pickletools
+
+                for op, arg, pos in pickletools.genops(data):
+                    if op.name == "FRAME":
+                        for b in (pos - 1, pos, pos + 1, pos + 9, pos + 9 + arg - 1, pos + 9 + arg, pos + 9 + arg + 1):
+                            if 0 <= b < size:
+                                special.add(b)
+            except Exception:
+                pass
             rng = random.Random(77)
-            pts = sorted(set([0, 1, size - 1] + rng.sample(pts, 147)))
+            pts = sorted(special | set(rng.sample(pts, 130)))
         self._crash_points[config] = pts
         return pts
 
